@@ -275,7 +275,9 @@ def axis_index_pairing(rep):
                               f"{rel}::shape({norm_src(node)[:50]})",
                               f"grid shape written in order {letters}, must be x, y, z",
                               node=node)
-    if n < 8:
+    # (a count of hand-written pairings: a refactoring that builds them in a loop over the axes
+    #  legitimately has fewer; only their complete disappearance is suspicious)
+    if n < 3:
         raise AnalysisError(f"axis-index-pairing: only {n} sites found")
 
 
